@@ -13,9 +13,9 @@ import (
 
 func TestC08(t *testing.T) {
 	mon.Main(t, mon.Check{
-		ID:    "C08",
-		Level: "exploration",
-		Rule: "two real noise Machines after a real XX or KK handshake exchange 0..6000 records per direction (up to 12 key rotations) of sizes {0,1,2,16,100,1000,65535}, all-equal or distinct plaintexts; the order of the four operations (client writes, server writes, server reads, client reads) is a PRNG schedule, including bursts in which both directions cross a rotation boundary while records are in flight. Before every write the (key, nonce) pair about to be used is read through the hook. Oracles: no (key, nonce) pair is ever used twice, neither within a direction nor across directions or machines; writer and reader change keys at the same record indices; every read returns exactly the plaintext written at that index; equal plaintexts never give equal ciphertexts; the plaintext markers and the auth payload (raw, hex, base64) occur nowhere in the bytes written during the handshake or the stream. Non-trivial = at least one rotation in each direction that carried traffic; distinct = (pattern, record counts, schedule hash).",
+		ID:          "C08",
+		Level:       "exploration",
+		Rule:        "two real noise Machines after a real XX or KK handshake exchange 0..6000 records per direction (up to 12 key rotations) of sizes {0,1,2,16,100,1000,65535}, all-equal or distinct plaintexts; the order of the four operations (client writes, server writes, server reads, client reads) is a PRNG schedule, including bursts in which both directions cross a rotation boundary while records are in flight. Before every write the (key, nonce) pair about to be used is read through the hook. Oracles: no (key, nonce) pair is ever used twice, neither within a direction nor across directions or machines; writer and reader change keys at the same record indices; every read returns exactly the plaintext written at that index; equal plaintexts never give equal ciphertexts; the plaintext markers and the auth payload (raw, hex, base64) occur nowhere in the bytes written during the handshake or the stream. Non-trivial = at least one rotation in each direction that carried traffic; distinct = (pattern, record counts, schedule hash).",
 		Assumptions: []string{"secrecy is decided in its observable form only (markers absent from the wire)"},
 		NCases: func(tier string) int {
 			if tier == "thorough" {
@@ -68,18 +68,18 @@ func runC08(c *mon.Case) {
 	copy(fixed, "PLAINTEXT-MARKER-")
 
 	type dirState struct {
-		name           string
-		w, r           *mailbox.Machine
-		n              int
-		written, read  int
-		stream         bytes.Buffer
-		plains         [][]byte
-		wKeyChange     []int // record indices at which the writer's key changed
-		rKeyChange     []int
-		lastWKey       [32]byte
-		lastRKey       [32]byte
-		ciphers        map[string]int
-		wireBytes      int
+		name          string
+		w, r          *mailbox.Machine
+		n             int
+		written, read int
+		stream        bytes.Buffer
+		plains        [][]byte
+		wKeyChange    []int // record indices at which the writer's key changed
+		rKeyChange    []int
+		lastWKey      [32]byte
+		lastRKey      [32]byte
+		ciphers       map[string]int
+		wireBytes     int
 	}
 	a := &dirState{name: "c2s", w: hs.C.M, r: hs.S.M, n: nA, ciphers: map[string]int{}}
 	b := &dirState{name: "s2c", w: hs.S.M, r: hs.C.M, n: nB, ciphers: map[string]int{}}
